@@ -38,7 +38,7 @@
      "MetaShapedBlobAccepted" no domain separation between blob and meta ciphertexts: a user blob whose
                               PLAINTEXT is a well-formed meta file is accepted as a meta blob when its
                               ciphertext is found in the meta store *)
-EXTENDS Naturals, FiniteSets, TLC
+EXTENDS Naturals, FiniteSets
 
 CONSTANTS Plain,        \* plaintext blobs (positive naturals: ranks)
           Limit,        \* SmallMetaCountLimit
@@ -51,7 +51,7 @@ CONSTANTS Plain,        \* plaintext blobs (positive naturals: ranks)
 
 VARIABLES enc,      \* objects in `blobs`: set of [id, p]           (name = id, authentic ciphertext of p)
           metas,    \* objects in `meta`:  set of [id, ents], ents a set of [p, c] (plain -> cipher id)
-          heap,     \* smallMeta: set of [id, plains, k]  (k distinguishes a second record of the same blob)
+          heap,     \* smallMeta: set of [id, plains]
           index,    \* local index: set of [p, c], at most one row per p
           acked,    \* plains whose ReceiveBlob returned success
           recv,     \* the ReceiveBlob in flight
@@ -118,7 +118,7 @@ RecvBlob ==
 
 RecvMeta ==
   /\ mode = "up" /\ recv.pc = "meta" /\ nextId <= MaxId
-  /\ LET hm == [id |-> nextId, plains |-> {recv.p}, k |-> 0] IN
+  /\ LET hm == [id |-> nextId, plains |-> {recv.p}] IN
      /\ CanPush(heap, jobs, hm)
      /\ metas' = metas \cup {[id |-> nextId, ents |-> {[p |-> recv.p, c |-> recv.c]}]}
      /\ heap' = PushHeap(heap, hm)
@@ -160,7 +160,7 @@ JobAbandon(j) ==
 (* pcs: the job states from which the upload may be taken (the trace spec folds the silent index reads in) *)
 JobUploadFrom(j, pcs) ==
   /\ Running /\ j \in jobs /\ j.pc \in pcs /\ j.plains \subseteq Dom(index) /\ nextId <= MaxId
-  /\ LET hm == [id |-> nextId, plains |-> j.plains, k |-> 0]
+  /\ LET hm == [id |-> nextId, plains |-> j.plains]
          j1 == [j EXCEPT !.pc = "upload"]
          rest == Advance((jobs \ {j}) \cup {j1}, j1) IN
      /\ CanPush(heap, rest, hm)
@@ -192,7 +192,7 @@ RestartBegin ==
 
 ScanOne(m) ==
   /\ mode = "scan" /\ m \in todo
-  /\ LET hm == [id |-> m.id, plains |-> PlainsOf(m), k |-> 0] IN
+  /\ LET hm == [id |-> m.id, plains |-> PlainsOf(m)] IN
      /\ CanPush(heap, jobs, hm)
      /\ heap' = PushHeap(heap, hm)
      /\ jobs' = PushJobs(heap, jobs, hm)
@@ -308,8 +308,6 @@ AckedFetchable == Serving => \A p \in acked : FetchOutcome(p) = "orig"
 
 (* a meta blob disappears only when every entry it holds is held by a meta blob that stays *)
 DeleteOnlyCovered == [][\A m \in metas \ metas' : m.ents \subseteq AllEnts(metas')]_evars
-
-PlainSym == Permutations(Plain)
 
 ETypeOK == /\ \A x \in enc : x.id < nextId /\ x.p \in Plain
            /\ \A m \in metas : m.id < nextId /\ Functional(m.ents)
